@@ -388,7 +388,7 @@ class Facts:
         its literal: annotate the operand with the value so that rules reading raw operands see through the name"""
         vals = {}
         for b in self.bodies:
-            if not b.kind.startswith("Const") and b.kind != "AssocConst":
+            if not b.kind.startswith(("Const", "AssocConst")):
                 continue
             blk = b.blocks[0] if b.blocks else None
             if blk is None or blk["t"]["k"] != "return":
@@ -632,7 +632,7 @@ class ExprBuilder:
                 return ("const", o["v"], int(o["int"]), o["ty"])
             if "def" in o:
                 cb = self.facts.by_def.get(o["def"])
-                if cb is not None and cb.kind.startswith("Const"):
+                if cb is not None and cb.kind.startswith(("Const", "AssocConst")):
                     return self.local(cb, 0, depth + 1)
                 return ("constdef", canon(o["def"]))
             iv = int(o["int"]) if "int" in o else None
